@@ -1301,6 +1301,11 @@ class MiniInt:
             if g is not None and g.roots:
                 args = [self.expr(a, env, depth) if not self._opaque(a, env) else ("obj", a, env) for a in call_args(n)]
                 return self.call(g, args, depth + 1)
+        if k == "CXXOperatorCallExpr" and n.get("op") == "()" and depth < self.max_depth:
+            g = getattr(self.F, "_by_id", {}).get(n.get("calleeId"))             # a call of a local lambda whose body is exported
+            if g is not None and g.roots and g.d.get("isLambda"):
+                args = [self.expr(a, env, depth) if not self._opaque(a, env) else ("obj", a, env) for a in kids(n)[2:]]
+                return self.call(g, args, depth + 1)
         raise AnalysisBroken("MiniInt: expression `%s` outside the fragment" % render(n)[:70])
 
     def _opaque(self, a, env):
@@ -1321,6 +1326,8 @@ class MiniInt:
             return r.node
         finally:
             self.cur.pop()
+        if depth > 0:
+            return 0                 # an inlined helper that ends without `return` (a void function): the caller continues
         raise AnalysisBroken("MiniInt: %s has a path without a return" % g.name)
 
     def run(self, stmts, env, depth=0, stop=None):
